@@ -163,6 +163,7 @@ def oracle_junk(run, tier, rng):
     cfgs = [DEFAULT_CFG, BuildCfg("gcc-O0", opt="-O0"), BuildCfg("clang-O2", cc="clang-14", opt="-O2")]
     if tier != "quick": cfgs += [BuildCfg("gcc-O1-pattern", opt="-O1", extra=["-ftrivial-auto-var-init=pattern"]), BuildCfg("gcc-O1-zero", opt="-O1", extra=["-ftrivial-auto-var-init=zero"]), BuildCfg("clang-O0", cc="clang-14", opt="-O0")]
     scripts = s_mixed(Rng(rng.next()), tier, st) + gen_ops.gen_keylen(Rng(rng.next()), junk_patterns=(0x00,))[:2] + gen_ops.gen_api_walk(Rng(rng.next()), N(tier, 6, 40), 25, stats=st)
+    obj_scripts = gen_ops.gen_parallel(Rng(rng.next()), N(tier, 2, 10), stats=st) + gen_ops.gen_ctr(Rng(rng.next()), N(tier, 3, 12), stats=st)
     ref = None; n = 0
     for cfg in cfgs:
         d, cexe = run.lib(cfg)
@@ -172,6 +173,16 @@ def oracle_junk(run, tier, rng):
                 lines = _hdr(run, cfg, "vec256") + ["junk %d" % junk] + [l for l in body if not l.startswith("junk ")]
                 o, rc, err = vlib.run_driver(cexe, "\n".join(lines) + "\n", env)
                 outs.append((name, lines, [x for x, l in zip(o, lines) if l != "heap"])); n += 1
+            # object handles with garbage prior contents on every back end (the selection code paths differ)
+            for be in ("generic", "vec128"):
+                if be not in cfg.backends(): continue
+                for name, body in obj_scripts:
+                    lines = _hdr(run, cfg, be) + ["junk %d" % junk] + [l for l in body if not l.startswith("junk ")]
+                    o, rc, err = vlib.run_driver(cexe, "\n".join(lines) + "\n", env)
+                    if rc != 0:
+                        return {"ok": False, "what": "crash with garbage prior object contents: config=%s backend=%s junk=0x%02x script=%s rc=%d %s" % (cfg.name, be, junk, name, rc, err.strip().split("\n")[0][:160] if err else ""),
+                                "witness": {"lines": lines}, "runs": n}
+                    outs.append((name + "@" + be, lines, [x for x, l in zip(o, lines) if l != "heap"])); n += 1
             if ref is None: ref = outs; continue
             for (name, lines, o), (_, rlines, ro) in zip(outs, ref):
                 if o != ro:
